@@ -92,6 +92,7 @@ def declare(rep):
     rep.rule("C18.validation-field", "every sign validation tests the field that was just assigned, with the documented comparison", floor=12)
     rep.rule("C18.order-preserved", "cell types and face types are appended in document order", floor=2)
     rep.rule("C18.type-binding", "a mesh cell whose cell_type_id is k is built with the k-th cell type of the parameter file (positional binding, the convention of doc/parameter_file_doc.md and of the reader's order-preserving lists): simulation_initializer::run hands triangulate_surface cell_type_param_lst[cell_type_id]", floor=1)
+    rep.rule("C18.wiring-order", "a constructor does not initialise a member from another member that only receives its value later in the same constructor (mem-initializer evaluated before the body assigns the source): the copy would hold the source's default, not the value read from the parameter file", floor=3)
     rep.rule("C18.consumers", "each parameter field is read at the site(s) named by the frozen consumer table", floor=25)
     rep.rule("C18.contact-strengths", "the repulsive contact block reads repulsion_strength_, the adhesive one adherence_strength_", floor=1)
 
@@ -435,6 +436,14 @@ def run(rep, prog, tier):
                 rep.violation("C18.binding-table", prog, fn, r["node"], "tag <%s>: %s" % (tag, problems[0][:60]), "<%s> in %s: %s" % (tag, qn, "; ".join(problems)))
             # validations
             got = [(lf, op, rf) for (lf, op, rf, throws, s) in r["valid"] if throws]
+            # a sign check on a field of unsigned type can never fire: negative input wraps around and is accepted
+            for (lf, op, rf, throws, s_) in r["valid"]:
+                if throws and lf == field and rf == "0" and op in ("<", "<="):
+                    ft = [x.get("t") for x in walk(s_["cond"]) if x.get("k") == "MemberExpr" and (x.get("ref") or {}).get("name") == field]
+                    if ft and re.match(r"^(const )?unsigned\b", ft[0] or ""):
+                        got = [g_ for g_ in got if g_ != (lf, op, rf)] if op == "<" else got
+                        rep.violation("C18.validation-field", prog, fn, s_, "<%s>: sign check on the unsigned field %s" % (tag, field),
+                                      "the field %s that receives <%s> has type %s: the check '%s %s 0' can never %s, a negative value in the file wraps around (e.g. -1 -> 65535) and is accepted" % (field, tag, ft[0], field, op, "be true" if op == "<" else "detect a negative value"))
             for (op, rhs) in valids:
                 if (field, op, rhs) in got:
                     rep.ok("C18.validation-field", prog, fn, r["node"], "<%s>: rejects %s %s %s" % (tag, field, op, rhs))
@@ -449,6 +458,7 @@ def run(rep, prog, tier):
                                   "after reading <%s> the reader must throw when %s %s %s; found validations %s" % (tag, field, op, rhs, sorted(set(got))))
     order_preserved(rep, prog)
     type_binding(rep, prog)
+    wiring_order(rep, prog)
     consumers(rep, prog)
     contact_strengths(rep, prog)
 
@@ -522,6 +532,33 @@ def type_binding(rep, prog):
                           "simulation_initializer::run no longer takes cell_type_param_lst[cell_type_id] (the k-th cell type of the parameter file for a mesh cell of type id k) but searches the list (%s): with cell types whose position differs from their global id - several sets of the same class, or types listed in another order - a cell gets the parameters (class, densities, moduli, tensions) of another type or is rejected" % short(a[2], 60))
         else:
             raise AnalysisBroken("simulation_initializer::run: the cell type handed to triangulate_surface (%s) is in a form this checker does not decide" % short(a[2], 60))
+
+
+def wiring_order(rep, prog):
+    n = 0
+    for fn in product_fns(prog):
+        if not fn.get("ctor") and fn.get("name") != (fn.get("cls") or "").split("::")[-1]:
+            continue
+        inits = [i for i in fn.get("inits", []) if isinstance(i.get("init"), dict)]
+        if not inits or not isinstance(fn.get("body"), dict):
+            continue
+        # members assigned as a whole in the constructor body
+        assigned = {}
+        for a in walk(fn["body"]):
+            if a.get("k") in ("BinaryOperator", "CXXOperatorCallExpr") and a.get("op") == "=":
+                lhs = strip(a["c"][0] if a["k"] == "BinaryOperator" else a["c"][1])
+                if lhs.get("k") == "MemberExpr" and (lhs.get("ref") or {}).get("dk") == "Field" and lhs.get("c") and strip(lhs["c"][0]).get("k") == "CXXThisExpr":
+                    assigned.setdefault(lhs["ref"]["name"], a)
+        n += 1
+        bad = False
+        for i in inits:
+            for x in walk(i["init"]):
+                if x.get("k") == "MemberExpr" and (x.get("ref") or {}).get("dk") == "Field" and x.get("c") and strip(x["c"][0]).get("k") == "CXXThisExpr" and x["ref"]["name"] in assigned:
+                    bad = True
+                    rep.violation("C18.wiring-order", prog, fn, i["init"], "%s initialised from %s before %s is assigned" % (i.get("name") or i.get("qn", "?").split("::")[-1], x["ref"]["name"], x["ref"]["name"]),
+                                  "%s initialises the member %s in its mem-initializer list from this->%s, but %s only receives its value in the constructor body (line %s): the mem-initializer runs first and copies the default-constructed value, so the parameter read from the file never reaches %s" % (fn["qn"], i.get("name") or i.get("qn", "?"), x["ref"]["name"], x["ref"]["name"], assigned[x["ref"]["name"]].get("l"), i.get("name") or i.get("qn", "?")))
+        if not bad:
+            rep.ok("C18.wiring-order", prog, fn, None, "%s: no mem-initializer reads a member that the body assigns later" % fn["qn"])
 
 
 def consumers(rep, prog):
